@@ -296,9 +296,10 @@ type ev struct {
 }
 type declT struct{ agent, label, alias string }
 type diagram struct {
-	decls   []declT
-	evs     []ev
-	boxes   [][]string // aliases per box
+	decls    []declT
+	evs      []ev
+	boxes    [][]string // aliases per box
+	boxNames []string
 	badLine string
 	boxOpen bool
 }
@@ -390,6 +391,7 @@ func readDiagram(text string) *diagram {
 			}
 			d.boxOpen = true
 			d.boxes = append(d.boxes, nil)
+			d.boxNames = append(d.boxNames, reBox.FindStringSubmatch(l)[1])
 		case rePart.MatchString(l):
 			m = rePart.FindStringSubmatch(l)
 			if !d.boxOpen || len(d.boxes) == 0 {
@@ -722,7 +724,19 @@ func judge(c *common.Ctx, tc *caseT) judged {
 			eg = append(eg, "NoteSide")
 		}
 	}
-	return judged{obs: "(ObsOk " + common.GList(dg) + " " + common.GList(eg) + ")", nArrows: len(got), outcome: "ok"}
+	var bg []string
+	for i, b := range d.boxes {
+		var gi int
+		if n, _ := fmt.Sscanf(d.boxNames[i], "t%d", &gi); n != 1 {
+			gi = 999999
+		}
+		var ms []string
+		for _, al := range b {
+			ms = append(ms, fmt.Sprint(alias2app[al]))
+		}
+		bg = append(bg, fmt.Sprintf("(%d,%s)", gi, common.GList(ms)))
+	}
+	return judged{obs: "(ObsOk " + common.GList(dg) + " " + common.GList(eg) + " " + common.GList(bg) + ")", nArrows: len(got), outcome: "ok"}
 }
 
 // ---------------------------------------------------------------- Gallina printing of the input
@@ -771,7 +785,16 @@ func gCase(tc *caseT, obs string) string {
 	for _, s := range tc.Starts {
 		sts = append(sts, fmt.Sprintf("(%d,%d)", s[0], s[1]))
 	}
-	return fmt.Sprintf("(%s, %s, %s, %s)", common.GList(apps), common.GList(bbs), common.GList(sts), obs)
+	var grp []string // application -> value of the group-by attribute ("t<n>" -> n); empty when the option is off
+	if tc.GroupBy {
+		for i, a := range tc.Apps {
+			var gi int
+			if n, _ := fmt.Sscanf(a.Group, "t%d", &gi); n == 1 {
+				grp = append(grp, fmt.Sprintf("(%d,%d)", i, gi))
+			}
+		}
+	}
+	return fmt.Sprintf("(%s, %s, %s, %s, %s)", common.GList(apps), common.GList(bbs), common.GList(sts), common.GList(grp), obs)
 }
 
 // ---------------------------------------------------------------- generators
@@ -935,7 +958,7 @@ func genCase(r *common.Rng, hostile bool) *caseT {
 		tc.GroupBy = true
 		for i := range tc.Apps {
 			if r.Chance(2, 3) {
-				tc.Apps[i].Group = []string{"t1", "t2"}[r.Intn(2)]
+				tc.Apps[i].Group = []string{"t2", "t1", "t3"}[r.Intn(3)]
 			}
 		}
 	}
